@@ -5,7 +5,7 @@
 From Coq Require Import ZArith List Bool Lia.
 From Soc Require Import Lib.Bits Lib.Res.
 From Soc Require Import Model.Mux Model.MuxSpec Model.Gpio Model.GpioSpec.
-From Soc Require Import Proofs.Gpio Proofs.GpioCtor Proofs.GpioBus.
+From Soc Require Import Proofs.Gpio Proofs.GpioCtor Proofs.GpioSpan Proofs.GpioBus.
 Import ListNotations.
 Open Scope Z_scope.
 
@@ -112,6 +112,28 @@ Theorem C16_ctor_rejects_iff : forall p,
   (forall e, ctor p = Err e -> e = TypeError \/ e = ValueError).
 Proof. exact ctor_rejects_iff. Qed.
 Print Assumptions C16_ctor_rejects_iff.
+
+(* "fits" in closed form: the four registers span 4Q addresses when the 2n-bit registers need the same power-of-two
+   size Q as the n-bit ones, 3P when they need P = 2Q; the smallest accepted addr_width is the log2 of that, rounded up *)
+Theorem C16_fits_closed_form : forall p, types_ok p = true ->
+  fits p = (span (zof (p_dw p)) (zof (p_pins p)) <=? 2 ^ zof (p_aw p)).
+Proof. exact fits_closed_form. Qed.
+Print Assumptions C16_fits_closed_form.
+
+Theorem C16_layout_closed_form : forall dw n, 0 < dw -> 0 < n ->
+  let Q := nsize dw n in let P := nsize dw (2 * n) in
+  map (fun r => (r_start r, r_stop r)) (natural dw 0 (reg_specs n)) =
+  [(0, P); (P, P + Q); (P + Q, P + 2 * Q); (span dw n - P, span dw n)].
+Proof. exact layout_closed_form. Qed.
+Print Assumptions C16_layout_closed_form.
+
+(* the builder's placement loop IS the documented layout (never a silently moved or shrunk register) *)
+Theorem C16_place_spec : forall aw dw, 0 < dw -> forall specs cur, Forall (fun s => 0 <= fst s) specs ->
+  place aw dw cur specs =
+  if forallb (fun r => r_stop r <=? 2 ^ aw) (natural dw cur specs)
+  then Ok (natural dw cur specs) else Err ValueError.
+Proof. exact place_spec. Qed.
+Print Assumptions C16_place_spec.
 
 (* An accepted peripheral has the documented layout, unmoved, under an admissible multiplexer. *)
 Theorem C16_ctor_ok : forall p c, ctor p = Ok c ->
@@ -278,7 +300,9 @@ Example C16_ctor_nonvacuous :
   (* 20 pins on 8 bits: Mode [0,8) holds 40 bits in 5 chunks + 3 padding; Input [8,12); Output [12,16); SetClr [16,24) *)
   map (fun r => (r_start r, r_stop r))
       (layout_of {| p_pins := VInt 20; p_aw := VInt 5; p_dw := VInt 8; p_stages := VInt 0 |}) =
-    [(0, 8); (8, 12); (12, 16); (16, 24)].
+    [(0, 8); (8, 12); (12, 16); (16, 24)] /\
+  (* spans: 20 pins / 8 bits: P = 8 = 2Q -> 24; 5 pins / 8 bits: P = 2 = 2Q -> 6; 4 pins / 8 bits: P = Q = 1 -> 4 *)
+  span 8 20 = 24 /\ span 8 5 = 6 /\ span 8 4 = 4.
 Proof. vm_compute. repeat split; reflexivity. Qed.
 
 Example ex_accepted : accepted ex_c 5 ex_r0 ex_r1 ex_r2 ex_r3.
